@@ -12,6 +12,10 @@ def tweak(world, rng):
     if not ents:
         return world
     nodes = {n["p"]: n for n in world["nodes"]}
+    if any(e.get("dest") in ("hardlink-of-payload", "link-to-payload") for e in ents):
+        # what stands at the destination is the payload itself under another name: refused like anything else without
+        # --overwrite (more often than not), replaced with it
+        world["opts"]["overwrite"] = rng.random() < 0.35
     has_dup = any(e.get("dup") for e in ents)
     if has_dup:
         # keep the second generation as the only thing in the way: drop pre-existing destinations
@@ -138,6 +142,8 @@ LEVEL_NOTE = ("theorems: without --overwrite an existing destination of any kind
 RULE = ("seeded trash worlds where destinations pre-exist as regular file / directory / symlink to file / symlink to dir / "
         "dangling symlink for about 60% of the entries; 7 reply shapes (single, multi, ranges) x overwrite on/off x sort "
         "modes; recorded Paths with a trailing slash and with '.'/'..' components behind a directory that does not exist; "
+        "directed worlds where what stands at the destination is the payload itself under another name (hard link, link to "
+        "it) with and without --overwrite; "
         "oracle: refused entries and everything after them stay in the trash, the destination is unchanged, exit != 0")
 
 
@@ -145,6 +151,14 @@ def run(tier, seed):
     ck = Check("C06", tier, seed)
     info = audit("C06")
     add_worlds(ck, "C06", seed, CFG, 300 if tier == "quick" else 4000)
+    # what stands at the destination is the payload itself under another name (hard link, symbolic link to it), selected
+    # first: refused like any other existing file without --overwrite, replaced with it
+    from ..readfamily import absorb, eval_task
+    from ..runner import run_tasks
+    from .c15 import same_inode_world
+    cfg = dict(CFG, tweak=None)
+    absorb(ck, run_tasks(eval_task, [{"pid": "C06", "seed": seed, "i": 0, "cfg": cfg, "world": same_inode_world(seed, i)}
+                                     for i in range(8 if tier == "quick" else 40)]), cfg)
     return ck.finish(info, LEVEL_NOTE, RULE)
 
 
